@@ -30,8 +30,10 @@ BOUNDARY = {
 
 
 def coq_tparam(t):
-    return "(mkTP %s %s %s %s %s %s %s %s)" % (
-        coq_bytes(t["var"]), coq_list([coq_bytes(x) for x in t["sources"]]), coq_list([coq_bytes(x) for x in t["wires"]]),
+    import re
+    decl = re.sub(r"(Param|Response)\d+\w+\.", "", t["decl_type"])
+    return "(mkTP %s %s %s %s %s %s %s %s %s)" % (
+        coq_bytes(t["var"]), coq_bytes(decl), coq_list([coq_bytes(x) for x in t["sources"]]), coq_list([coq_bytes(x) for x in t["wires"]]),
         coq_bytes(t["conv"]), coq_bytes(t["conv_bits"]), coq_bytes(t["validator"]), coq_bool(t["has_validator"]),
         coq_bool(t["is_body"]))
 
